@@ -107,6 +107,7 @@ class DataPacketQueue(utils.EventEmitter):
         """Enqueue a packet associated with a connection"""
         self._packets.appendleft((packet, connection_handle))
         self._queued += 1
+        self._update_drained(connection_handle)
         self._check_queue()
 
         if self._packets:
@@ -143,10 +144,29 @@ class DataPacketQueue(utils.EventEmitter):
     def _check_queue(self) -> None:
         while self._packets and self._in_flight < self.max_in_flight:
             packet, connection_handle = self._packets.pop()
-            self._send(packet)
+            try:
+                self._send(packet)
+            except Exception:
+                # The packet is lost, the connection may have nothing pending now.
+                self._update_drained(connection_handle)
+                raise
             self._in_flight += 1
             connection_state = self._connection_state[connection_handle]
             connection_state.in_flight += 1
+            connection_state.drained.clear()
+
+    def _update_drained(self, connection_handle: int) -> None:
+        """
+        A connection is drained when it has no packet in flight and no packet
+        waiting in the queue.
+        """
+        if (connection_state := self._connection_state.get(connection_handle)) is None:
+            return
+        if connection_state.in_flight == 0 and not any(
+            handle == connection_handle for (_, handle) in self._packets
+        ):
+            connection_state.drained.set()
+        else:
             connection_state.drained.clear()
 
     def on_packets_completed(self, packet_count: int, connection_handle: int) -> None:
@@ -169,8 +189,7 @@ class DataPacketQueue(utils.EventEmitter):
             # completed, the other connections still hold their buffers.
             packet_count = connection_state.in_flight
             connection_state.in_flight = 0
-        if connection_state.in_flight == 0:
-            connection_state.drained.set()
+        self._update_drained(connection_handle)
 
         if packet_count <= self._in_flight:
             self._in_flight -= packet_count
